@@ -37,6 +37,58 @@ func defCfg() Cfg { return Cfg{AttrPrefix: "-", KeyPrefix: "#"} }
 
 func (c Cfg) textK() string { return c.KeyPrefix + "text" }
 
+// optionVars: the package-level variables of mxj that are option state (what the setters write and what
+// resetOptions restores), as of the tree the checks were written for. Any other package-level variable a
+// tree under test may have - a cache, a table, a pool, a generation counter, a lazily set flag - is not
+// option state: it is reported (counter) but never compared, because a correct implementation may keep
+// such state. What it does to behaviour is judged by the behavioural oracles.
+var optionVars = map[string]bool{
+	"CustomDecoder":           true,
+	"JsonUseNumber":           true,
+	"KeyNotExistError":        true,
+	"NO_ROOT":                 true,
+	"NoRoot":                  true,
+	"PathNotExistError":       true,
+	"XmlCharsetReader":        true,
+	"attrK":                   true,
+	"attrPrefix":              true,
+	"castNanInf":              true,
+	"castToBool":              true,
+	"castToFloat":             true,
+	"castToInt":               true,
+	"checkTagToSkip":          true,
+	"commentK":                true,
+	"decodeSimpleValuesAsMap": true,
+	"defaultArraySize":        true,
+	"directiveK":              true,
+	"disableTrimWhiteSpace":   true,
+	"fieldSep":                true,
+	"handleXMPPStreamTag":     true,
+	"includeTagSeqNum":        true,
+	"instK":                   true,
+	"jhandlerPollInterval":    true,
+	"lenAttrPrefix":           true,
+	"lowerCase":               true,
+	"procinstK":               true,
+	"seqK":                    true,
+	"snakeCaseKeys":           true,
+	"targetK":                 true,
+	"textK":                   true,
+	"trimRunes":               true,
+	"useDotNotation":          true,
+	"useGoXmlEmptyElemSyntax": true,
+	"xhandlerPollInterval":    true,
+	"xmlCheckIsValid":         true,
+	"xmlEscapeChars":          true,
+	"xmlEscapeCharsDecoder":   true,
+}
+
+// isOptionVar reports whether a "name=value" entry of the state dump belongs to the option state.
+func isOptionVar(entry string) bool {
+	i := strings.Index(entry, "=")
+	return i > 0 && optionVars[entry[:i]] && !strings.HasPrefix(entry[i+1:], "aux:")
+}
+
 var baselineState []string
 
 func initBaseline() {
@@ -81,12 +133,13 @@ func resetKeyPrefix() {
 func stateDiff() string {
 	cur := mxj.VerifState()
 	var d []string
-	for i := range cur {
-		if strings.Contains(cur[i], "=aux:") {
-			continue // tables, caches, pools: not part of the option state
-		}
-		if i >= len(baselineState) || cur[i] != baselineState[i] {
-			d = append(d, cur[i])
+	base := map[string]bool{}
+	for _, e := range baselineState {
+		base[e] = true
+	}
+	for _, e := range cur {
+		if isOptionVar(e) && !base[e] {
+			d = append(d, e)
 		}
 	}
 	return strings.Join(d, "; ")
